@@ -1450,7 +1450,7 @@ func main() {
 		b.WriteString(try("g_"+coqName(f), func() string { return p.translateCursorLoop(f) }) + "\n")
 	}
 	b.WriteString("(* ---- 2c. loaders of the index structures ---- *)\n")
-	for _, f := range []string{"parseFooter", "Segment.getDocStoredOffsetsOnly", "Segment.loadStoredFieldChunk", "Segment.loadFields", "Segment.loadFieldDocValueReader", "Segment.loadDvReaders", "Segment.getDocStoredOffsets"} {
+	for _, f := range []string{"parseFooter", "Segment.getDocStoredOffsetsOnly", "Segment.loadStoredFieldChunk", "Segment.loadFields", "Segment.loadFieldDocValueReader", "Segment.loadDvReaders", "Segment.getDocStoredOffsets", "Segment.getDocStoredMetaAndUnCompressed", "readChunkBoundary"} {
 		f := f
 		b.WriteString(try("g_"+coqName(f), func() string { return p.translateReader(f) }) + "\n")
 	}
